@@ -2,6 +2,7 @@
 #define PARSENUM_H_
 
 #include <assert.h>
+#include <ctype.h>
 #include <errno.h>
 #include <inttypes.h>
 #include <math.h>
@@ -191,6 +192,17 @@ parsenum_unsigned(const char * s, uintmax_t min, uintmax_t max,
 		errno = EINVAL;
 	else if ((val < min) || (val > max) || (val > typemax))
 		errno = ERANGE;
+	else if (val != 0) {
+		/*
+		 * strtoumax() accepts a leading '-' and negates the value in
+		 * the unsigned type; but a negative number (other than -0)
+		 * cannot be represented in an unsigned integer type.
+		 */
+		while (isspace((unsigned char)(*s)))
+			s++;
+		if (*s == '-')
+			errno = ERANGE;
+	}
 	return (val);
 }
 
